@@ -15,7 +15,7 @@ from ..ctxuniverse import KEYS, LOOKUPS, Universe
 class C04(CtxCheck):
     id = "C04"
     engine = "E2+E1"
-    aspects = {"factory"}
+    aspects = {"factory", "generated-scope"}
     max_ctx = 3
     assumptions = [
         "<= 3 contexts, factories of one and two types, sync and async",
@@ -37,7 +37,7 @@ class C04(CtxCheck):
     def seeds(self, tier: str) -> list[list]:
         root = [("new", -1, False), ("enter", 0, False)]
         out = []
-        for k, fk in (("Ad", "sync"), ("Ad", "async"), ("ABd", "sync"), ("BAd", "async"), ("ABx", "async")):
+        for k, fk in (("Ad", "sync"), ("Ad", "async"), ("ABd", "sync"), ("BAd", "async"), ("ABx", "async"), ("Ad", "alambda"), ("ABd", "alambda")):
             f = ("op", 0, ("addf", k, fk, f"f:c0:{k}", "m"))
             out.append(root + [f])
             out.append(root + [f, ("new", 0, False), ("enter", 1, False)])
